@@ -59,6 +59,15 @@ def run(tier, v):
     rows_c, rows_t, validated, tstates, cstat, corrupted = pc.both(
         v, PID, b, d, table, 3 if thorough else 1, "c03", 5000 if thorough else 300)
     runs_t = sorted({r["run"] for r in rows_t})
+    extra = {}
+    if thorough:
+        # growth beyond the statement (DESIGN 9.1): Pool x Schedule x Waiter grain, design level + binding
+        import c03_sched
+        ps_states, ps_trans = c03_sched.design()
+        states += ps_states
+        trans += ps_trans
+        extra = c03_sched.bind(v, b, d, 400)
+        extra["poolsched_design_states"] = ps_states
     cov = {
         "states": states, "transitions": trans,
         "traces_validated_against_impl": validated,
@@ -73,6 +82,7 @@ def run(tier, v):
         "exhaustive": False,
     }
     cov.update(cstat)
+    cov.update(extra)
     return "model_checking", cov, [
         "exhaustive TLC bounds: <= 3 instances, T <= %d tokens, ammo <= %d or unbounded" % ((3, 7) if thorough else (2, 3)),
         "normal operation only: no component fails, nobody cancels (C05)",
@@ -81,4 +91,10 @@ def run(tier, v):
 
 
 def replay(path, v):
+    import json
+    obj = json.load(open(path))
+    if obj.get("kind") == "poolsched":
+        import c03_sched
+        c03_sched.validate(v, obj["events"], vlib.scratch(), "replay")
+        return None
     return pc.replay(path, v, PID)
